@@ -1,5 +1,3 @@
-use hashbrown::HashSet;
-
 use super::{LuaType, LuaTypeNode, LuaUnionType, VariadicType};
 
 #[allow(unused)]
@@ -301,19 +299,21 @@ impl LuaType {
             0 => LuaType::Nil,
             1 => types[0].clone(),
             _ => {
-                let mut result_types = Vec::new();
-                let mut hash_set = HashSet::new();
+                // Dedupe with `==`, not with a hash set: `Hash for LuaType` hashes several
+                // variants by allocation address, so equal types in different allocations
+                // would both be kept (and `union_type` folds would disagree with this).
+                let mut result_types: Vec<LuaType> = Vec::new();
                 for typ in types {
                     match typ {
                         LuaType::Union(u) => {
                             for t in u.into_vec() {
-                                if hash_set.insert(t.clone()) {
+                                if !result_types.contains(&t) {
                                     result_types.push(t);
                                 }
                             }
                         }
                         _ => {
-                            if hash_set.insert(typ.clone()) {
+                            if !result_types.contains(&typ) {
                                 result_types.push(typ);
                             }
                         }
